@@ -44,6 +44,18 @@ impl Gen {
         }
     }
 
+    /// append an implementation-only statement (the model is not consulted)
+    pub fn push_outcome_only(&mut self, kind: &str, ex: Ex, write_set: Vec<String>, no_raise: bool) {
+        self.kinds.push(kind.to_string());
+        self.script.stmts.push(Stmt {
+            ex,
+            faults: Vec::new(),
+            write_set,
+            mode: crate::run::Mode::OutcomeOnly,
+            no_raise,
+        });
+    }
+
     pub fn take_script(&mut self) -> Script {
         std::mem::replace(
             &mut self.script,
@@ -100,8 +112,13 @@ impl Gen {
             }
             r => {
                 self.kinds.push(kind.to_string());
-                let write_set = Vec::new();
-                self.script.stmts.push(Stmt { ex, faults, write_set });
+                self.script.stmts.push(Stmt {
+                    ex,
+                    faults,
+                    write_set: Vec::new(),
+                    mode: crate::run::Mode::Checked,
+                    no_raise: false,
+                });
                 Ok(match r {
                     Ok(v) => Ok(v),
                     Err(_) => Err(()),
